@@ -55,19 +55,22 @@ Fixpoint after_close_ok (dead:bool) (open:option N) (l:list (cop * N)) : option 
 Definition spec (k:wcase) (o:wobs) : option (N * tape) :=
   let wire := wire_of (wo_evs o) in
   let '(fs, t) := parse_frames wire in
-  match t with
-  | TEnd =>
-      if negb (wf_wire (negb (w_server (wk_cfg k))) (w_negotiated (wk_cfg k)) fs) then Some (61, [])
-      else if negb (close_is_last fs) then Some (164, [])              (* bytes on the wire after a close frame *)
-      else match after_close_ok false None (combine (wk_ops k) (wo_res o)) with
-           | Some c => Some (c, [])
-           | None =>
-               match wire_events (map fst fs) with
-               | None => Some (62, [])
-               | Some evs => if sents_eqb evs (a_out (expected_sent k o)) then None else Some (63, [])
+  (* a transport failure (fault plan) may leave one incomplete frame at the very end (C10) *)
+  let tail_ok := match t, wk_fail k with TEnd, _ => true | TPartial _, Some _ => true | _, _ => false end in
+  if negb tail_ok then Some (60, [])
+  else if negb (wf_wire (negb (w_server (wk_cfg k))) (w_negotiated (wk_cfg k)) fs) then Some (61, [])
+  else if negb (close_is_last fs) then Some (164, [])              (* bytes on the wire after a close frame *)
+  else match after_close_ok false None (combine (wk_ops k) (wo_res o)) with
+       | Some c => Some (c, [])
+       | None =>
+           match wire_events (map fst fs) with
+           | None => Some (62, [])
+           | Some evs =>
+               match wk_fail k with
+               | None => if sents_eqb evs (a_out (expected_sent k o)) then None else Some (63, [])
+               | Some _ => None
                end
            end
-  | _ => Some (60, [])
-  end.
+       end.
 
 Definition judge : tape -> tape := judge_writer spec.
